@@ -23,7 +23,15 @@ pub fn generate(rng: &mut Rng, seed: u64, run: u64, max_len: usize) -> Trace {
         1 => Flavor::Text,
         _ => Flavor::Sgr,
     };
-    let mut wl = gen::workload(rng, flavor, max_len);
+    let mut wl = if rng.chance(1, 4) {
+        // restricted grammar with an unambiguous meaning: checked against `simple_model` as well
+        gen::simple_sgr_workload(rng, max_len.min(4096))
+    } else if rng.chance(1, 8) {
+        // well-formed escape sequences of every family: the visible text is known independently
+        gen::simple_escape_workload(rng, max_len.min(4096))
+    } else {
+        gen::workload(rng, flavor, max_len)
+    };
     let mut ops = gen_ops(rng, &wl, true);
     if rng.chance(1, 8) {
         let (bytes, lit_ops) = gen_literal_history(rng, 24);
@@ -68,6 +76,132 @@ fn expected_tagged(input: &[u8]) -> Vec<(u8, u8, u8)> {
         }
     }
     out
+}
+
+/// Independent interpretation of the restricted grammar of `gen::simple_sgr_workload`: the
+/// per-byte colouring a conforming terminal limited to the 16-colour palette would show (256-colour
+/// indices 0-15 are their palette colour, other indexed colours and RGB fall back to the default).
+/// `None` when the input is not in that grammar (nothing is claimed then).  Shares no code with
+/// the extractor, the parser or `cap`.
+pub fn simple_model(input: &[u8]) -> Option<Vec<(u8, u8, u8)>> {
+    let text = std::str::from_utf8(input).ok()?;
+    let b = text.as_bytes();
+    let (mut fg, mut bg) = (0u8, 0u8);
+    let mut out = Vec::with_capacity(b.len());
+    let mut i = 0usize;
+    let mut sequences = 0usize;
+    while i < b.len() {
+        let c = b[i];
+        if c == 0x1b {
+            if b.get(i + 1) != Some(&b'[') {
+                return None;
+            }
+            let close = i + 2 + b[i + 2..].iter().position(|x| !(x.is_ascii_digit() || *x == b';' || *x == b':'))?;
+            if b[close] != b'm' {
+                return None;
+            }
+            let body = &text[i + 2..close];
+            let mut groups: Vec<Vec<u16>> = Vec::new();
+            for g in body.split(';') {
+                let mut vals = Vec::new();
+                for v in g.split(':') {
+                    if v.len() > 4 {
+                        return None;
+                    }
+                    vals.push(if v.is_empty() { 0 } else { v.parse::<u16>().ok()? });
+                }
+                groups.push(vals);
+            }
+            if groups.len() > 12 {
+                return None;
+            }
+            // flatten the semicolon spelling of a closing 38/48/58 group
+            let mut k = 0usize;
+            while k < groups.len() {
+                let g = groups[k].clone();
+                let rest = groups.len() - k - 1;
+                let mut colour = |target: u16, spec: &[u16]| -> Option<()> {
+                    let value = match spec {
+                        [5, n] if *n <= 255 => {
+                            if *n < 16 {
+                                *n as u8 + 1
+                            } else {
+                                0
+                            }
+                        }
+                        [2, r, g, b] if *r <= 255 && *g <= 255 && *b <= 255 => 0,
+                        _ => return None,
+                    };
+                    match target {
+                        38 => fg = value,
+                        48 => bg = value,
+                        _ => {}
+                    }
+                    Some(())
+                };
+                if g.len() > 1 {
+                    // colon spelling: must be the closing group
+                    if rest != 0 {
+                        return None;
+                    }
+                    match g[0] {
+                        38 | 48 | 58 => colour(g[0], &g[1..])?,
+                        4 if g.len() == 2 && g[1] <= 5 => {}
+                        _ => return None,
+                    }
+                    k += 1;
+                    continue;
+                }
+                match g[0] {
+                    0 => {
+                        fg = 0;
+                        bg = 0;
+                    }
+                    30..=37 => fg = (g[0] - 30) as u8 + 1,
+                    90..=97 => fg = (g[0] - 90) as u8 + 9,
+                    40..=47 => bg = (g[0] - 40) as u8 + 1,
+                    100..=107 => bg = (g[0] - 100) as u8 + 9,
+                    39 => fg = 0,
+                    49 => bg = 0,
+                    1 | 2 | 3 | 5 | 7 | 8 | 9 | 21..=29 | 53 => {}
+                    4 => {
+                        if rest != 0 {
+                            return None;
+                        }
+                    }
+                    38 | 48 | 58 => {
+                        // semicolon spelling: the remaining groups are its parameters, and it closes
+                        let spec: Vec<u16> = groups[k + 1..].iter().map(|x| if x.len() == 1 { Some(x[0]) } else { None }).collect::<Option<Vec<u16>>>()?;
+                        colour(g[0], &spec)?;
+                        k = groups.len();
+                        continue;
+                    }
+                    _ => return None,
+                }
+                k += 1;
+            }
+            sequences += 1;
+            i = close + 1;
+        } else if c == b'\n' || c == b'\t' || c == b'\r' || (0x20..=0x7e).contains(&c) {
+            out.push((c, fg, bg));
+            i += 1;
+        } else if c >= 0x80 {
+            let ch = text[i..].chars().next()?;
+            if (ch as u32) < 0xa0 {
+                return None;
+            }
+            for x in &b[i..i + ch.len_utf8()] {
+                out.push((*x, fg, bg));
+            }
+            i += ch.len_utf8();
+        } else {
+            return None;
+        }
+    }
+    if sequences == 0 {
+        return None;
+    }
+    Some(out)
 }
 
 fn delivered_tagged(h: &SimConsole) -> Vec<(u8, u8, u8)> {
@@ -140,6 +274,17 @@ pub fn execute(t: &Trace, stats: &mut Stats, record: bool) -> Outcome {
     let n = input.len();
     let whole = expected_tagged(input);
     let shadow = shadow_states(input);
+    // which bytes are visible text at all, for inputs of the well-formed escape grammar (valid
+    // UTF-8 without DEL, which the full parser and the byte stripper are documented to treat
+    // differently)
+    let text_model = if std::str::from_utf8(input).is_ok() && !input.contains(&0x7f) { simple_strip_model(input) } else { None };
+    if text_model.is_some() {
+        stats.probe("input_in_restricted_escape_grammar_text_checked_against_independent_model");
+    }
+    let model = simple_model(input);
+    if model.is_some() {
+        stats.probe("input_in_restricted_sgr_grammar_checked_against_independent_model");
+    }
     let mut c = 0usize;
     let mut hash = Fnv::default();
     hash.str(&t.surface);
@@ -147,6 +292,7 @@ pub fn execute(t: &Trace, stats: &mut Stats, record: bool) -> Outcome {
     let mut violation: Option<Violation> = None;
     let mut nontrivial = false;
     let mut stopped = false;
+    let mut client_wrote_after_error = false;
 
     let stride = check_stride(t.ops.len());
     let mut since_check = 0usize;
@@ -308,6 +454,7 @@ pub fn execute(t: &Trace, stats: &mut Stats, record: bool) -> Outcome {
                         // the Display impl kept writing after the failed fragment: what the
                         // console holds now is the client's doing
                         stats.probe("display_kept_writing_after_error");
+                        client_wrote_after_error = true;
                         break;
                     }
                 }
@@ -357,6 +504,32 @@ pub fn execute(t: &Trace, stats: &mut Stats, record: bool) -> Outcome {
         let d = delivered_tagged(&h);
         if d != whole {
             violation = Some(viol(mismatch_class(&d, &whole), format!("end of history: console received {} expected {}", show(&d), show(&whole))));
+        }
+    }
+    if violation.is_none() && !client_wrote_after_error {
+        if let Some(m) = &text_model {
+            let d: Vec<u8> = delivered_tagged(&h).iter().map(|x| x.0).collect();
+            if !m.starts_with(&d) {
+                violation = Some(viol(
+                    if d.contains(&0x1b) { "leak-escape" } else { "wrong-text" },
+                    format!("console received the text {:?} but an independent reading of this input's escape sequences (VT500 parser model) leaves the visible text {:?}", lossy(&d), lossy(m)),
+                ));
+            }
+        }
+    }
+    if violation.is_none() && !client_wrote_after_error {
+        // what the console got is a prefix of the extractor-derived expectation; for inputs of the
+        // restricted grammar it must also be a prefix of the independent interpretation
+        if let Some(m) = &model {
+            let d = delivered_tagged(&h);
+            if !m.starts_with(&d) {
+                let class = mismatch_class(&d, &m[..d.len().min(m.len())]);
+                let class = if class == "lost-text" || class == "dup-text" { "wrong-text" } else { class };
+                violation = Some(viol(
+                    class,
+                    format!("console received {} but an independent reading of these simple SGR sequences (16-colour palette, indices 0-15 kept, other indexed and RGB colours to the default) gives {}", show(&d), show(m)),
+                ));
+            }
         }
     }
     let st = h.st();
